@@ -26,6 +26,47 @@ theorem C38_setting_in_range (ns : List Nat) :
     unfold setFragmentSize FRAG_LO FRAG_HI
     split <;> simp_all
 
+/-- the documented range as a named Boolean predicate -/
+def fragOk (n : Nat) : Bool := decide (8 ≤ n) && decide (n ≤ 65000)
+
+theorem getLast?_cons_getD (n c : Nat) (l : List Nat) : ((n :: l).getLast?).getD c = (l.getLast?).getD n := by
+  cases l with
+  | nil => rfl
+  | cons x xs =>
+    rw [List.getLast?_cons_cons]
+    have h : ∀ (d : Nat), ((x :: xs).getLast?).getD d = (x :: xs).getLast (by simp) := by
+      intro d; rw [List.getLast?_eq_some_getLast (by simp)]; rfl
+    rw [h c, h n]
+
+/-- **C38_last_accepted**: after ANY sequence of calls from ANY previous setting, the setting is exactly the argument of
+    the last call whose argument was inside 8..=65000, and the previous setting when there was none: a rejected call
+    never leaves a trace, an accepted one always takes effect, whatever came before. -/
+theorem C38_last_accepted (ns : List Nat) (c : Nat) :
+    ns.foldl (fun c n => (setFragmentSize c n).1) c = ((ns.filter fragOk).getLast?).getD c := by
+  induction ns generalizing c with
+  | nil => rfl
+  | cons n ns ih =>
+    simp only [List.foldl_cons]
+    rw [ih]
+    by_cases hok : fragOk n = true
+    · have h1 : (setFragmentSize c n).1 = n := by
+        have := (C38_range c n).2.1
+        apply this
+        apply (C38_range c n).1.2
+        simpa [fragOk] using hok
+      rw [h1, List.filter_cons_of_pos hok, getLast?_cons_getD]
+    · have h1 : (setFragmentSize c n).1 = c := by
+        apply (C38_range c n).2.2
+        cases hv : (setFragmentSize c n).2 with
+        | false => rfl
+        | true =>
+          exfalso; apply hok
+          have := (C38_range c n).1.1 hv
+          simpa [fragOk] using this
+      rw [h1, List.filter_cons_of_neg hok]
+
+example : [7, 100, 65001, 9, 0].foldl (fun c n => (setFragmentSize c n).1) FRAG_DEFAULT = 9 := by decide
+
 example : (setFragmentSize 1344 7).2 = false ∧ (setFragmentSize 1344 8).1 = 8 := by decide
 
 end DustVerif.Time
